@@ -145,6 +145,25 @@ def sprintfAdd (real len : Nat) : SzR :=
   else if real + len ≤ ushrtMax then .ok (real + len)
   else .err                                      -- outbuf_extend returns fewer than len: sprintf_error
 
+/-! ### constructors whose result is a copy or a part of an operand -/
+
+/-- copy (v), sort_array, map_array / map_mapping, lower_case / upper_case / capitalize: the result has the size of
+    the operand (copy_array / copyMapping / string_copy of a value that exists) -/
+def sameSize (n : Nat) : SzR := .ok n
+
+/-- filter_array / filter_mapping, unique_array (number of groups), array `-` and `&`: `kept` of the `n` elements -/
+def partOf (n kept : Nat) : SzR := .ok (min kept n)
+
+/-- keys (m) / values (m): `allocate_empty_array (m->count)` -/
+def mapKeys (count : Nat) (arrayLimit : Int) : SzR := allocateArray count arrayLimit
+
+/-- allocate_mapping (n): an empty mapping whatever n is (n only sizes the hash table, clamped to MAX_MAPPING_SIZE) -/
+def allocateMapping (_n : Int) : SzR := .ok 0
+
+/-- string_print_formatted's final test (fix 3738abb): the finished result must respect MaxStringLength too -/
+def sprintfFinish (real : Nat) (limit : Int) : SzR :=
+  if real > toSizeT limit then .err else .ok real
+
 /-- replace_string, replacement longer than a pattern of two or more characters: the decision sequence of the scan
     after the fix.  `dlen` characters are in the MAX-sized destination.  Each step is guarded as in the code. -/
 inductive RStep
